@@ -62,6 +62,7 @@ EVERY entry of EVERY section that parses.
 import re
 from vlib import core
 from gen import c12gen
+from checks import c12_markmap
 
 # Which variant of the mirror is tied to the code in /repo:
 #   False = header.rs as pinned (array loop without progress, u64 unwrap)
@@ -762,3 +763,4 @@ def run(ctx):
         "RecoveryKind / LexerKind / LexFlags conversions: impl-only oracle (no panic, an error has >= 1 location, every location a "
         "well-formed span, renders); YaccKind and SerialisationFormat are mirrored",
     ]
+    c12_markmap.run_part(ctx)
